@@ -1,8 +1,9 @@
 (* Model of the git gate of cmd/fix.go (the block guarded by !dryRun && !force) and of
    internal/git/git.go FindGitRepo / findRepoPath.  go-git's status computation is an
    oracle: the gate only sees the key set of the status map (repository-relative,
-   slash-separated paths of every file that is not clean: modified, staged, untracked, ...).
-   Definitions only. *)
+   slash-separated paths of every file that is not clean: modified, staged, untracked, ...;
+   regal's GetChangedFiles adds the keys of the submodules that are checked out, prefixed with
+   the submodule's path).  Definitions only. *)
 From Regal Require Export Base.PathModel Model.Provider.
 
 Definition s_dotgit : str := [46; 103; 105; 116].     (* ".git" *)
@@ -36,28 +37,62 @@ Fixpoint find_repo_path (fuel : nat) (stat : str -> stat_result) (d : str) : rep
     end
   end.
 
-(* FindGitRepo, repaired code: every argument must give the same answer (the pinned code
-   compared only non-empty answers, see [find_git_repo_pinned]) *)
-Fixpoint find_git_repo_rest (fuel : nat) (stat : str -> stat_result) (common : repo_result)
+(* FindGitRepo, repaired code: every argument is made absolute first (filepath.Abs against the
+   working directory; the walk with filepath.Dir climbs the directory hierarchy only on an
+   absolute path), and every argument must give the same answer.  [stat] answers for ABSOLUTE
+   paths.  The two earlier forms are kept below: [find_git_repo_lexical] (walk on the spelling)
+   and [find_git_repo_pinned] (which in addition compared only non-empty answers). *)
+Definition find_repo_path_abs (cwd : str) (fuel : nat) (stat : str -> stat_result) (d : str)
+  : repo_result := find_repo_path fuel stat (fp_abs cwd d).
+
+Fixpoint find_git_repo_rest (cwd : str) (fuel : nat) (stat : str -> stat_result)
+         (common : repo_result) (dirs : list str) : repo_result :=
+  match dirs with
+  | [] => common
+  | d :: ds =>
+    match find_repo_path_abs cwd fuel stat d, common with
+    | RepoErr, _ => RepoErr
+    | RepoNone, RepoNone => find_git_repo_rest cwd fuel stat common ds
+    | RepoAt r, RepoAt c => if str_eqb r c then find_git_repo_rest cwd fuel stat common ds else RepoErr
+    | _, _ => RepoErr
+    end
+  end.
+
+Definition find_git_repo (cwd : str) (fuel : nat) (stat : str -> stat_result) (dirs : list str)
+  : repo_result :=
+  match dirs with
+  | [] => RepoErr
+  | d :: ds =>
+    match find_repo_path_abs cwd fuel stat d with
+    | RepoErr => RepoErr
+    | c => find_git_repo_rest cwd fuel stat c ds
+    end
+  end.
+
+(* earlier form (repaired in /repo): the walk ran on the argument AS SPELLED; [stat] resolves a
+   relative spelling against the working directory.  filepath.Dir of a relative path walks
+   "../x", "..", "." and stays there: the repository of the working directory is found for
+   a directory outside of it, and "." never gets above the working directory *)
+Fixpoint find_git_repo_lexical_rest (fuel : nat) (stat : str -> stat_result) (common : repo_result)
          (dirs : list str) : repo_result :=
   match dirs with
   | [] => common
   | d :: ds =>
     match find_repo_path fuel stat d, common with
     | RepoErr, _ => RepoErr
-    | RepoNone, RepoNone => find_git_repo_rest fuel stat common ds
-    | RepoAt r, RepoAt c => if str_eqb r c then find_git_repo_rest fuel stat common ds else RepoErr
+    | RepoNone, RepoNone => find_git_repo_lexical_rest fuel stat common ds
+    | RepoAt r, RepoAt c => if str_eqb r c then find_git_repo_lexical_rest fuel stat common ds else RepoErr
     | _, _ => RepoErr
     end
   end.
 
-Definition find_git_repo (fuel : nat) (stat : str -> stat_result) (dirs : list str) : repo_result :=
+Definition find_git_repo_lexical (fuel : nat) (stat : str -> stat_result) (dirs : list str) : repo_result :=
   match dirs with
   | [] => RepoErr
   | d :: ds =>
     match find_repo_path fuel stat d with
     | RepoErr => RepoErr
-    | c => find_git_repo_rest fuel stat c ds
+    | c => find_git_repo_lexical_rest fuel stat c ds
     end
   end.
 
@@ -80,6 +115,52 @@ Fixpoint find_git_repo_pinned_loop (fuel : nat) (stat : str -> stat_result) (com
   end.
 Definition find_git_repo_pinned fuel stat dirs :=
   match dirs with [] => RepoErr | _ => find_git_repo_pinned_loop fuel stat [] dirs end.
+
+(* NOT the code: a FindGitRepo that takes a later argument to lie in the repository found so
+   far as soon as the repository path is a STRING prefix of the argument's path, and does not
+   search for it (the class of seeded change C14-4; "/w/pol-draft" starts with "/w/pol") *)
+Definition str_has_prefix (s p : str) : bool :=
+  match drop_prefix s p with Some _ => true | None => false end.
+
+Fixpoint find_git_repo_strprefix_rest (cwd : str) (fuel : nat) (stat : str -> stat_result)
+         (common : repo_result) (dirs : list str) : repo_result :=
+  match dirs with
+  | [] => common
+  | d :: ds =>
+    let skip := match common with RepoAt c => str_has_prefix (fp_abs cwd d) c | _ => false end in
+    if skip then find_git_repo_strprefix_rest cwd fuel stat common ds else
+    match find_repo_path_abs cwd fuel stat d, common with
+    | RepoErr, _ => RepoErr
+    | RepoNone, RepoNone => find_git_repo_strprefix_rest cwd fuel stat common ds
+    | RepoAt r, RepoAt c => if str_eqb r c then find_git_repo_strprefix_rest cwd fuel stat common ds else RepoErr
+    | _, _ => RepoErr
+    end
+  end.
+
+Definition find_git_repo_strprefix (cwd : str) (fuel : nat) (stat : str -> stat_result) (dirs : list str)
+  : repo_result :=
+  match dirs with
+  | [] => RepoErr
+  | d :: ds =>
+    match find_repo_path_abs cwd fuel stat d with
+    | RepoErr => RepoErr
+    | c => find_git_repo_strprefix_rest cwd fuel stat c ds
+    end
+  end.
+
+(* ---------------------------------------------------------------- what "lies in the repository" means *)
+
+(* the directory with components [ds] lies in the work tree with components [rs]: component-wise
+   containment ([rs] itself included), with rs/.git a directory and no directory from there down
+   to [ds] holding a .git entry of its own: [rs] is the CLOSEST enclosing work tree *)
+Definition in_work_tree (stat : str -> stat_result) (rs ds : list str) : Prop :=
+  exists rest, ds = rs ++ rest
+    /\ stat (cpath (rs ++ [s_dotgit])) = StDir
+    /\ forall m m', rest = m ++ m' -> m <> [] -> stat (cpath ((rs ++ m) ++ [s_dotgit])) = StNotExist.
+
+(* no directory from the root down to [ds] holds a .git entry *)
+Definition in_no_work_tree (stat : str -> stat_result) (ds : list str) : Prop :=
+  forall m m', ds = m ++ m' -> stat (cpath (m ++ [s_dotgit])) = StNotExist.
 
 (* ---------------------------------------------------------------- the gate *)
 
